@@ -384,7 +384,7 @@ def mon_plans(lines, c, want):
     for l in lines:
         if l.kind == "api" and l.phase == "begin" and ((l.op == "construct" and l.args[0] != "1") or (l.op == "attachLogger" and l.args[0] != "1")):
             return None
-    PL = {}; SU = {}; FA = {}; PE = {}; A = {}
+    PL = {}; SU = {}; FA = {}; PE = {}; A = {}; obs_of = {}
     def pstr(pl): return "[" + ",".join("%d>%d:%s" % t for t in pl) + "]"
     for call in calls(lines):
         i = call.inst
@@ -415,8 +415,12 @@ def mon_plans(lines, c, want):
             if r: return r
         if call.op == "succeed": SU[i].add(int(call.args[0]))
         if call.op == "fail": FA[i].add(int(call.args[0]))
-        if call.op == "loadfrom":           # load() discards the plan before it runs any callback
-            PL[i] = []; SU[i] = set(); FA[i] = set(); PE[i] = False
+        if call.op == "loadfrom":
+            # load() of an active saver into an active loader discards the plan before it runs any callback; into an inactive loader there is
+            # nothing to discard; load() of an inactive saver runs the final exit first and discards afterwards (handled at the end of the call)
+            src = obs_of.get(int(call.args[0])); dst = obs_of.get(i)
+            if src is not None and dst is not None and src.f.get("on") == "1" and dst.f.get("on") == "1":
+                PL[i] = []; SU[i] = set(); FA[i] = set(); PE[i] = False
         a0 = A.get(i)
         snap = None      # (failure outstanding for the active state, plan exists) at the moment of the plan step
         last_cb = None; fired = []; plan_cb = []; to_clear = set(); pending_outcome_clear = False
@@ -507,6 +511,7 @@ def mon_plans(lines, c, want):
                 expf = "%d>%d:%s" % PL[i][0] if PL[i] else "-"; expl = "%d>%d:%s" % PL[i][-1] if PL[i] else "-"
                 if o.f.get("first") != expf or o.f.get("last") != expl:
                     return call.obs_idx, "first()/last() report %s/%s, the sequence is %s" % (o.f.get("first"), o.f.get("last"), pstr(PL[i]))
+        if call.obs is not None: obs_of[i] = call.obs
     return None
 
 def mon_C08(lines, c): return mon_plans(lines, c, {"C08"})
